@@ -680,6 +680,11 @@ func (req *Request) buildDistributedRequestData(subBackends []string) (requestDa
 		requestData["stats"] = str
 	}
 
+	// Restrict the result to the objects of this contact
+	if req.AuthUser != "" {
+		requestData["authuser"] = req.AuthUser
+	}
+
 	// Limit
 	// An upper limit is used to make sorting possible
 	// Offset is 0 for sub-request (sorting)
